@@ -466,8 +466,17 @@ def family_a(ctx, focus):
         kind = bgen.kind_of(rq, rs)
         for j, b in enumerate(bs):
             scripts.append(bgen.stream_script(b, kind, "httpmem", "sim-http-%s-%d" % (kind, j), seed * 100019 + j))
+        # step by step: every internal action of the model that is a schedule
+        # point of httpgrpc (verifPoint gates) is a step of the schedule
+        consts = http_stream_consts(rq, rs, 2, 3, 4, hdr=2, trl=2, statuses="{0, 1, 2}", closers='{"cs"}')
+        bs = bgen.simulate(ctx.scratch, "MCHttpStream", consts, nhsim, 120, seed * 17 + i, "hg%d" % i, files=mc_files())
+        for j, b in enumerate(bs):
+            scripts.append(bgen.stream_script(b, kind, "httpmem", "sim-http-gated-%s-%d" % (kind, j), seed * 100019 + j,
+                                              gated="http"))
     ctx.rules.append("behaviours of the L1 model HttpStream (TLC -simulate), half- and full-duplex, replayed under the "
-                     "quiescence scheduler on httpgrpc over the in-memory transport")
+                     "quiescence scheduler on httpgrpc over the in-memory transport; a second set replayed step by step "
+                     "through the verifPoint gates of httpgrpc (reader goroutine, watcher, RecvMsg/SendMsg/CloseSend "
+                     "and server stream internals)")
     _tick(ctx, "L1 simulate")
     # 3. randomized free-running scripts on every transport (data dimension,
     #    concurrency, cancellation races)
@@ -533,16 +542,22 @@ def conformance(ctx, name):
             # the binding binds: the same runs with one logged field altered must all be rejected
             tasks.append((model, key, True, ex.submit(
                 vlib.conform, ctx.scratch, module, files, CONF_KINDS, consts, name + "-" + trs[0] + "-corrupt",
-                max_runs=15, corrupt=True, trs=trs)))
-    for model, key, corrupt, fut in tasks:
-        r = fut.result()
+                max_runs=40 if ctx.quick else 400, corrupt=15, trs=trs)))
+    res = {(key, corrupt): (model, fut.result()) for model, key, corrupt, fut in tasks}
+    for (key, corrupt), (model, r) in sorted(res.items()):
         ctx.states += r["states"]
         if corrupt:
-            ctx.extra[key.replace("conformance", "binding_demo")] = dict(corrupted_runs=r["total"],
-                                                                         wrongly_accepted=r["accepted"])
-            if r["accepted"]:
+            # only runs the model explains as recorded count: a run it rejects
+            # anyway proves nothing about the binding (and under a defect the
+            # alteration may even "repair" a wrong message id)
+            good = set(res[(key, False)][1]["accepted_runs"])
+            wrongly = [x for x in r["accepted_runs"] if x in good]
+            ctx.extra[key.replace("conformance", "binding_demo")] = dict(
+                corrupted_runs=len([1 for x in good if x in set(r["accepted_runs"]) | set(r["rejected"])]),
+                wrongly_accepted=len(wrongly))
+            if wrongly and not getattr(ctx, "allviol", None):
                 raise vlib.Infra("B-conf (%s) accepted %d corrupted traces: the trace specification does not bind"
-                                 % (model, r["accepted"]))
+                                 % (model, len(wrongly)))
             continue
         ctx.extra[key] = dict(runs=r["total"], accepted=r["accepted"], rejected=len(r["rejected"]),
                               rejected_runs=[dict(run=x, stuck_at=r["stuck"].get(x)) for x in r["rejected"][:20]])
